@@ -108,6 +108,11 @@ func errorFaults(rpc string) []*fault {
 		out = append(out, &fault{name: "code-" + c.String(), class: "code-" + c.String(), rpc: rpc,
 			err: status.Error(c, "injected "+c.String()+" "+secret), want: codeStatus[c]})
 	}
+	// numeric codes gRPC has not assigned (grpc-go passes them through unchanged): "every other backend fault" = 5xx
+	for _, c := range []codes.Code{17, 42, 1000} {
+		out = append(out, &fault{name: fmt.Sprintf("code-unassigned-%d", c), class: "code-unassigned", rpc: rpc,
+			err: status.Error(c, "injected unassigned code "+secret), want: w5})
+	}
 	out = append(out,
 		&fault{name: "wrapped-Unavailable", class: "wrapped-status-error", rpc: rpc, err: fmt.Errorf("rpc layer: %w", status.Error(codes.Unavailable, "injected "+secret)), want: want{exact: 503}},
 		&fault{name: "wrapped-ResourceExhausted", class: "wrapped-status-error", rpc: rpc, err: fmt.Errorf("rpc layer: %w", status.Error(codes.ResourceExhausted, "injected "+secret)), want: want{exact: 429}},
